@@ -343,6 +343,7 @@ public:
     } else if (const auto *DE = dyn_cast<CXXDeleteExpr>(S)) {
       o.boolean("array", DE->isArrayForm());
       o.str("destroyedType", typeStr(DE->getDestroyedType()));
+      if (!DE->getDestroyedType().isNull()) o.str("destroyedCType", canonTypeStr(DE->getDestroyedType()));
       bool hasDtor = false;
       if (!DE->getDestroyedType().isNull())
         if (const CXXRecordDecl *RD = DE->getDestroyedType()->getAsCXXRecordDecl())
